@@ -176,6 +176,13 @@ class GeminiServerProtocol(asyncio.Protocol):
                     self._handle_gemini_request(url)
             return
 
+        # Titan content complete while the middleware chain is still deciding:
+        # the request is complete, so the request timer no longer applies
+        if self.titan_request and len(self.buffer) >= self.titan_request.size:
+            if self.timeout_handle:
+                self.timeout_handle.cancel()
+                self.timeout_handle = None
+
         # State 2: Waiting for Titan content
         if self.awaiting_titan_content and self.titan_request:
             if len(self.buffer) >= self.titan_request.size:
@@ -584,6 +591,76 @@ class GeminiServerProtocol(asyncio.Protocol):
             self.titan_request.client_cert_fingerprint = get_certificate_fingerprint(
                 client_cert
             )
+
+        # Uploads pass through the same middleware chain as Gemini requests
+        # (rate limiting, access control, certificate auth) before any
+        # content is handed to the upload handler.
+        if self.middleware:
+            client_ip = self.peer_name[0] if self.peer_name else "unknown"
+            # Request already complete (delete, or content came with the line)
+            if len(self.buffer) >= self.titan_request.size and self.timeout_handle:
+                self.timeout_handle.cancel()
+                self.timeout_handle = None
+            try:
+                task = asyncio.create_task(
+                    self.middleware.process_request(
+                        self.titan_request.parsed_url.normalized,
+                        client_ip,
+                        self.titan_request.client_cert_fingerprint,
+                    )
+                )
+                task.add_done_callback(
+                    lambda t: self._handle_titan_middleware_result(t, client_ip)
+                )
+                # Return early - callback continues once the chain has decided
+                return
+            except RuntimeError:
+                # No event loop running (probably in tests) - skip middleware
+                logger.warning(
+                    "middleware_skipped",
+                    client_ip=client_ip,
+                    reason="no_event_loop",
+                )
+
+        self._await_titan_content()
+
+    def _handle_titan_middleware_result(self, task: asyncio.Task, client_ip: str) -> None:
+        """Handle the result of middleware processing for a Titan request.
+
+        Args:
+            task: The completed asyncio task.
+            client_ip: The client's IP address.
+        """
+        try:
+            allow, error_response = task.result()
+
+            if not allow:
+                # Middleware rejected the upload - send its response
+                if self.transport and error_response and not self.response_sent:
+                    self.response_sent = True
+                    self.transport.write(error_response.encode("utf-8"))
+                    self.transport.close()
+                return
+
+            # Connection already answered (timeout) or gone: nothing to upload
+            if self.transport is None or self.response_sent:
+                return
+
+            self._await_titan_content()
+
+        except (Exception, asyncio.CancelledError) as e:
+            logger.error(
+                "middleware_error",
+                client_ip=client_ip,
+                error=str(e),
+                exception_type=type(e).__name__,
+            )
+            self._send_error_response(StatusCode.TEMPORARY_FAILURE, "Middleware error")
+
+    def _await_titan_content(self) -> None:
+        """Dispatch the upload once all declared content bytes have arrived."""
+        if not self.titan_request:
+            return
 
         # If size is 0 (delete request), process immediately
         if self.titan_request.is_delete():
